@@ -8,4 +8,8 @@ mkdir -p bin
 if ! go build -tags verif -o bin/verif ./cmd/verif 2> bin/build.log; then
   echo "check.sh: build failed (harness error)"; cat bin/build.log; exit 2
 fi
+if [ "$1" = "C07" ]; then
+  # the free-running data-race pass of C07 needs the race-detector build of the same sources
+  go build -race -tags verif -o bin/verif-race ./cmd/verif 2>> bin/build.log || rm -f bin/verif-race
+fi
 exec ./bin/verif check "$1" "${2:-${VERIF_TIER:-quick}}"
